@@ -119,6 +119,10 @@ add("C28", "iso_mc", "exploration",
     "Every literal header over {entrypoint, field, pointer} x name pairs incl. prefixes of keywords and of each other x tails x the full product of a gap alphabet over the header gaps, plus every isogen grammar sentence up to N tokens re-headed; each token sequence is compiled once by the real compiler (acceptance + the real entrypoint artifact path); every layout the real parser accepts is run through the REAL SWC visitor in-process at call sites with decoy code, over 17 (project root, artifact directory, file depth) environments and both module settings: same classification, the import path resolves to exactly the compiler's entrypoint artifact, field / pointer calls become the function passed (or identity), everything else prints identically.",
     "Trusted: swc_ecma_codegen for printing; lexical path resolution; the plugin is run with absolute paths and no unresolved mark.", "bounded exhaustive grammar-directed header enumeration on the real SWC transform vs the real compiler", "2/C28")
 
+add("C20", "watch_mc", "model_checking",
+    "Explicit-state exploration of file-system histories on a real project tree in /dev/shm (sibling folders sharing a name prefix, a non-source file, a non-UTF-8 file, the artifact directory, schema, extension, config): every history of up to 3 (quick) / 3-4 (thorough) letters over 31 / 48 letters (write with 5 content classes, delete, renames within / into / out of the tree and across extensions, atomic save, mkdir, mkdir+write, rm -r, folder moves, schema / extension / config edits, writes inside the artifact directory, garbage collection) from two roots; each letter is applied to the disk, translated by an event model into the debounced events an inotify watcher delivers, passed through the real categorize_and_filter_events, then exactly one iteration of handle_watch_command (update_sources or new state, compile, garbage collection); after every step artifacts on disk and diagnostics must equal those of a fresh CompilerState + compile of the same files, and the loop must not end while the project is loadable.",
+    "Trusted: the event model (mc/watch_mc/src/events.rs, Linux inotify backend), bound to the implementation by a conformance run in every check: each scenario is replayed step by step under a real notify-debouncer-full watcher built like create_debounced_file_watcher and the delivered events must equal the model's (59 steps quick, all 3381 histories of length 2 thorough). One letter per debounce window; the tokio channel and timing are not executed.", "bounded exhaustive history enumeration on the real compiler state + event model validated against the real watcher", "2/C20")
+
 lsp_note = ("Trusted: the UTF-16 reference (mc/lsp_mc/src/text.rs), the position-free projection of parsed literals (proj.rs), the isogen grammar; the server is the real LspState with every handler called in-process over a project in /dev/shm.")
 add("C21", "lsp_mc", "model_checking",
     "Explicit-state exploration of editor histories on the real LspState: every sequence up to depth d over {didOpen/didChange/didClose of 2 files with 3 contents each, on-disk edits, validate, queries}, from a fresh server and from a server that already validated once; after every history the client view (latest published diagnostics per URI; semantic tokens, formatting, hover and definition at fixed positions of every file) must equal that of a fresh server started on the same disk contents and open buffers.",
@@ -159,6 +163,7 @@ m = {
         {"name": "lsp_mc", "path": "/verif/mc/lsp_mc", "serves_properties": ["C21", "C22", "C23"], "kind_free_text": "explicit-state history explorer on the real LspState (fresh-server differential oracle) and bounded-exhaustive document/position enumeration vs a UTF-16 reference"},
         {"name": "gql_mc", "path": "/verif/mc/gql_mc", "serves_properties": ["C29", "C30"], "kind_free_text": "bounded-exhaustive sentence / prefix / separator / single-edit enumeration of GraphQL documents through relay's graphql-syntax and isograph's schema parser vs a reference lexer+parser of the June 2018 grammar"},
         {"name": "iso_mc", "path": "/verif/mc/iso_mc", "serves_properties": ["C24", "C28"], "kind_free_text": "bounded-exhaustive header / program enumeration: the real SWC visitor in-process vs the real compiler's artifact paths; the overload list parsed from the real iso.ts vs a written-out first-match reference"},
+        {"name": "watch_mc", "path": "/verif/mc/watch_mc", "serves_properties": ["C20"], "kind_free_text": "explicit-state history explorer over a real project tree: fs letter -> event model (conformance-checked against a real notify-debouncer-full watcher) -> real event categorisation + update_sources + compile, vs a fresh batch compile"},
         {"name": "intern_mc", "path": "/verif/mc/intern_mc", "serves_properties": ["C05", "C06"], "kind_free_text": "loom models over the real intern crate (cfg shim) + bounded-exhaustive sequential sweep"},
     ],
     "checks": checks,
